@@ -29,6 +29,9 @@ def run(ctx, env):
     ctx.rule("R11.1", "every dispatcher call in parse_bytes has receiver = reborrow of `self`; no parser is constructed, cloned or defaulted on the parse path")
     ctx.rule("R11.2", "the returned vector is a local that is only appended to (push/extend), each pushed packet being Ok(dispatch of this iteration).result; no reordering / removing operation touches it")
     ctx.rule("R11.3", "no per-call state: loop-carried user locals are only the input cursor (&[u8]), the owned remainder (Vec<u8>) and the result vector; `self` is written only at the cache write sites of C06")
+    ctx.rule("R11.6", "a V9 packet ends where its header says: the flowset repetition is bounded by header.count itself (unmodified, bound by every caller) and finishes early only on empty input (shared with C14 R14.6) - otherwise it reads into the next chained packet or stops short of it")
+    from . import loopexit as _le
+    _le.flowset_repetition_rule(ctx, prog, an, "R11.6")
     ctx.rule("R11.5", "self-delimiting packets cannot read beyond their announced end: IPFIX sets only see the take(length-16) slice (length constant = header size; call-graph dominator), V5/V7 consume header + count(record)")
     ctx.rule("R11.4", "split point = the version parser's own remainder; continue iff it is non-empty (C02 R2.4 / R2.5 re-evaluated)")
     body = role_body(prog, "NetflowParser::parse_bytes")
